@@ -89,6 +89,21 @@ def is_exec_callee(F, t):
     return F.types[cb['locals'][0]]['s'] == 'bool'
 
 
+def _eta_edge(term, bases):
+    """`Edge(x.0, x.1, x.2)` (fields possibly cloned / re-bound by a destructuring let) is `x`"""
+    from .core import deep_unwrap
+    t = term
+    while isinstance(t, tuple) and t and t[0] == 'v':
+        t = t[1]
+    if isinstance(t, tuple) and t and t[0] == 'aggr' and t[1].endswith('::Edge::Edge') and len(t[2]) == 3:
+        for x in bases:
+            if x is None:
+                continue
+            if all(deep_unwrap(t[2][i]) == deep_unwrap(proj_field(x, str(i))) for i in range(3)):
+                return x
+    return term
+
+
 def discover(F):
     ks = []
     for q, b in sorted(F.bodies.items()):
@@ -287,7 +302,7 @@ def analyse(F, b, params):
             K.missing.append('RECORD(%d)' % len(recs))
         else:
             K.sites['RECORD'] = recs[0][0]
-            K.record_term = pv.of_operand(recs[0][1]['args'][1])
+            K.record_term = _eta_edge(pv.of_operand(recs[0][1]['args'][1]), [K.edge_term, K.item])
         K.result_other_ops = [callee_name(t).split('::')[-1] for bi, t in calls_in(b, lambda t: recv_is(t, result)) if callee_name(t).split('::')[-1] != 'push']
     # ADVANCE
     K.advance_term = None
@@ -346,7 +361,16 @@ def analyse(F, b, params):
                 elif rv['k'] == 'aggr' and rv['ak'].endswith('Option::None'):
                     founds.append((bi, 'none', None))
                 elif rv['k'] == 'use' and rv['ops'][0]['k'] in ('move', 'copy'):
-                    founds.append((bi, 'propagate', pv.of_operand(rv['ops'][0])))
+                    pt = pv.of_operand(rv['ops'][0])
+                    p0 = pt
+                    while isinstance(p0, tuple) and p0 and p0[0] == 'v':
+                        p0 = p0[1]
+                    if not rv['ops'][0]['pl']['p'] and isinstance(p0, tuple) and p0 and p0[0] == 'aggr' and p0[1].endswith('Option::Some') and len(p0[2]) == 1:
+                        founds.append((bi, 'some', p0[2][0]))       # `let r = Some(x); .. _0 = r`
+                    elif not rv['ops'][0]['pl']['p'] and isinstance(p0, tuple) and p0 and p0[0] == 'aggr' and p0[1].endswith('Option::None'):
+                        founds.append((bi, 'none', None))
+                    else:
+                        founds.append((bi, 'propagate', pt))
                 else:
                     founds.append((bi, 'other', None))
     K.rets = founds
